@@ -437,10 +437,10 @@ Proof.
     + intros m Hm. destruct (I8 m Hm) as (w & ? & ? & ?). exists w. split; [by right|done].
 Qed.
 
-Lemma step_l2 c s m : inv c s → inv c (sys_step c s (SL2 m)).1.
+Lemma plain_handle_inv c s m s2 r :
+  l2_plain m = true → L2.handle (c2 c) (l2 s) m = Some (s2, r) → inv c s → inv c (set_l2 s s2).
 Proof.
-  intros I. cbn [sys_step]. destruct (l2_plain m) eqn:Hp; [|done]. unfold lift2, L2.step.
-  destruct (L2.handle (c2 c) (l2 s) m) as [[s2 r]|] eqn:Hh; [|done]. cbn.
+  intros Hp Hh I.
   destruct m as [f|w1 w2 w3 w4|b1 b2 b3 b4|i1 i2|u1 u2|v1 v2 v3|r1 r2|p1 p2 p3|sender inner];
     try discriminate; cbn [L2.handle] in Hh.
   - eapply withdraw_sys; eauto.
@@ -596,13 +596,12 @@ Proof.
 Qed.
 
 
-Lemma step_relay c s k ex h hook : inv c s → inv c (sys_step c s (SRelay k ex h hook)).1.
+Lemma relay_handle_inv c s ev ex h hook s2 r :
+  inv c s → ev ∈ bevents c (l1 s) →
+  L2.finalize_deposit (c2 c) (l2 s) (relay_msg ev ex h hook) = Some (s2, r) → inv c (set_l2 s s2).
 Proof.
-  intros I. cbn [sys_step]. destruct (find_event c (l1 s) k) as [ev|] eqn:Hf; [|done].
-  apply find_elem in Hf as [Hin Hk]. apply N.eqb_eq in Hk.
-  unfold lift2, L2.step. cbn [L2.handle].
-  destruct (L2.finalize_deposit (c2 c) (l2 s) (relay_msg ev ex h hook)) as [[s2 r]|] eqn:Hd; [|done].
-  cbn [fst]. apply finalize_deposit_stages in Hd as [(-> & ->)|(Hseq & s3 & Hn1 & Hn2 & Hw & Hp & Hcase)].
+  intros I Hin Hd.
+  apply finalize_deposit_stages in Hd as [(-> & ->)|(Hseq & s3 & Hn1 & Hn2 & Hw & Hp & Hcase)].
   { by rewrite set_l2_same. }
   unfold pairs_after in Hp.
   cbn [relay_msg L2.fd_seq L2.fd_denom L2.fd_base L2.fd_amt L2.fd_to L2.fd_from L2.fd_hook] in *.
@@ -618,6 +617,61 @@ Proof.
     + congruence.
     + congruence.
     + right. exists base. auto.
+Qed.
+
+Lemma step_relay c s k ex h hook : inv c s → inv c (sys_step c s (SRelay k ex h hook)).1.
+Proof.
+  intros I. cbn [sys_step]. destruct (find_event c (l1 s) k) as [ev|] eqn:Hf; [|done].
+  apply find_elem in Hf as [Hin Hk].
+  unfold lift2, L2.step. cbn [L2.handle].
+  destruct (L2.finalize_deposit (c2 c) (l2 s) (relay_msg ev ex h hook)) as [[s2 r]|] eqn:Hd; [|done].
+  cbn [fst]. eapply relay_handle_inv; eauto.
+Qed.
+
+(* ---- every L2 message, also nested in ExecuteMessages, whose deposits are faithful relays ---- *)
+Lemma l2_adm_exec c s1 sender inner :
+  l2_adm c s1 (L2.MExecute sender inner) = forallb (l2_adm c s1) inner.
+Proof. cbn [l2_adm]. induction inner as [|x l IH]; [done|]. cbn [forallb]. by rewrite <- IH. Qed.
+
+Lemma adm_deposit_relay c s1 f :
+  l2_adm c s1 (L2.MFinalizeDeposit f) = true →
+  ∃ ev, ev ∈ bevents c s1 ∧ f = relay_msg ev (L2.fd_sender f) (L2.fd_height f) (L2.fd_hook f).
+Proof.
+  cbn [l2_adm]. destruct (find_event c s1 (L2.fd_seq f)) as [ev|] eqn:Hf; [|discriminate].
+  apply find_elem in Hf as [Hin Hk]. apply N.eqb_eq in Hk. unfold relay_of. intros Hr.
+  apply bool_decide_eq_true in Hr as (H1 & H2 & H3 & H4 & H5). exists ev. split; [done|].
+  destruct f. cbn in *. unfold relay_msg. by subst.
+Qed.
+
+Lemma handle_sys_inv c m : ∀ s s2 r,
+  l2_adm c (l1 s) m = true → L2.handle (c2 c) (l2 s) m = Some (s2, r) → inv c s → inv c (set_l2 s s2).
+Proof.
+  induction m as [f|w1 w2 w3 w4|b1 b2 b3 b4|i1 i2|u1 u2|v1 v2 v3|r1 r2|p1 p2 p3|sender inner IH] using msg_ind';
+    intros s s2 r Ha Hh I; try (by eapply plain_handle_inv; eauto).
+  - (* a deposit: a faithful relay *)
+    destruct (adm_deposit_relay c (l1 s) f Ha) as (ev & Hin & Hf). cbn [L2.handle] in Hh. rewrite Hf in Hh.
+    eapply relay_handle_inv; eauto.
+  - (* a batch: the inner messages in order, all on the same L1 state *)
+    rewrite l2_adm_exec in Ha. rewrite handle_execute in Hh.
+    destruct (negb (bool_decide (is_Some _))); [discriminate|].
+    case_bool_decide; [discriminate|]. destruct (negb (L2.is_admin (l2 s) sender)); [discriminate|].
+    apply bind_Some in Hh as (auth & _ & Hx). clear -IH Hx Ha I.
+    remember (l1 s) as L eqn:HL in Ha.
+    revert s I Hx HL. induction inner as [|im l IHl]; intros s I Hx HL; revert Hx.
+    + intros [= <- <-]. by rewrite set_l2_same.
+    + rewrite exec_loop_cons. intros Hx.
+      apply bind_Some in Hx as (sg & _ & Hx). apply bind_Some in Hx as (a & _ & Hx).
+      destruct (negb (bool_decide (a = auth))); [discriminate|].
+      apply bind_Some in Hx as ([s1 r1] & Hh & Hx).
+      apply Forall_cons in IH as [IHim IHrest]. cbn [forallb] in Ha. apply andb_true_iff in Ha as [Ha1 Ha2].
+      assert (I1 : inv c (set_l2 s s1)) by (apply (IHim s s1 r1); [by rewrite <- HL|done|done]).
+      rewrite <- (set_l2_twice s s1 s2). by apply (IHl IHrest Ha2 (set_l2 s s1) I1).
+Qed.
+
+Lemma step_l2 c s m : inv c s → inv c (sys_step c s (SL2 m)).1.
+Proof.
+  intros I. cbn [sys_step]. destruct (l2_adm c (l1 s) m) eqn:Ha; [|done]. unfold lift2, L2.step.
+  destruct (L2.handle (c2 c) (l2 s) m) as [[s2 r]|] eqn:Hh; [|done]. cbn. eapply handle_sys_inv; eauto.
 Qed.
 
 Lemma step_claim c s e sender idx m lo hi v bh :
